@@ -788,7 +788,9 @@ package websocket
 //@ tags C07 C12
 //@ bind dec,derr after call:DecodeString#1
 //@ assert at call:DecodeString#1[C12.key]: same(arg1, s)
-//@ ensures[C12.key] imp(result, len(s) > 0 && derr == nil && len(dec) == 16) && imp(len(s) > 0 && derr == nil && len(dec) == 16, result)
+//@ assert at return#1[C12.key]: !result && len(s) == 0
+//@ assert at return#2[C12.key]: len(s) > 0 && iff(result, derr == nil && len(dec) == 16)
+//@ ensures[C12.key] imp(result, len(s) > 0)
 
 //@ func hostPortNoPort
 //@ tags C07 C14 C18
